@@ -59,6 +59,7 @@ Known defects are detected at start-up with their minimal reproductions (the com
 while one is present the generator steers around it (ctx.exclude) so that the search goes on:
 EXCLUDE = {...} below; None = automatic, True/False = forced.  Round 4 found the fourth one on the unchanged tree: SFTPClient.listdir_iter reads
 its READDIR replies raw and takes replies of other requests (read-ahead READs still arriving) for its own ("iterhang").
+All four are recorded as fixed in known_findings.d/C30.json (iterhang: commit f60ebf2); with none of them present nothing is steered around.
 """
 import os
 import select
